@@ -460,3 +460,53 @@ Proof.
   intros ops s k H. destruct (workload_crash ops s k) as [j [_ [R _]]]. rewrite R.
   apply posts_complete, H.
 Qed.
+
+(* ---------------------------------------------------------------- a refused COMMIT *)
+Lemma run_no_commit : forall tr m, existsb is_commit tr = false -> dur (run tr m) = dur m.
+Proof.
+  induction tr as [|e tr IH]; intros m H; [reflexivity|].
+  simpl in H. apply orb_false_iff in H. destruct H as [He Ht].
+  unfold run in *. simpl. rewrite IH by exact Ht. destruct e; simpl in *; try reflexivity. discriminate.
+Qed.
+
+Lemma no_commit_firstn : forall k tr, existsb is_commit tr = false -> existsb is_commit (firstn k tr) = false.
+Proof.
+  induction k as [|k IH]; intros tr H; [reflexivity|].
+  destruct tr as [|e tr]; [reflexivity|]. simpl in *.
+  apply orb_false_iff in H. destruct H as [He Ht]. rewrite He. simpl. apply IH, Ht.
+Qed.
+
+Lemma no_commit_writes : forall ws, existsb is_commit (map Write ws) = false.
+Proof. induction ws; simpl; auto. Qed.
+
+(* an operation whose COMMIT the database refuses leaves nothing behind, wherever the process dies - and it is not
+   acknowledged as a success (failed_commit_acks_success is false unless there was nothing to write) *)
+Lemma failed_commit_absent : forall o s k w ws,
+  writes_of o s = Some (w :: ws) ->
+  recover (crash_at k (trace_of_failed_commit o s)) s = s /\ failed_commit_acks_success o s = false.
+Proof.
+  intros o s k w ws W. unfold trace_of_failed_commit, failed_commit_acks_success. rewrite W. split; [|reflexivity].
+  unfold recover, crash_at. rewrite run_no_commit; [reflexivity|].
+  apply no_commit_firstn. rewrite existsb_app, no_commit_writes. reflexivity.
+Qed.
+
+(* the retry that rolls back and commits again (what the model of a "commit retry" would be): acknowledged, nothing stored *)
+Definition retry_trace (ws : list write) : list event := map Write ws ++ [CommitFail; Rollback; Commit; Ack].
+
+Lemma retry_acks_nothing : forall ws s, recover (retry_trace ws) s = s /\ acked (retry_trace ws) = true.
+Proof.
+  intros ws s. unfold retry_trace, recover, acked. split.
+  - rewrite run_app, run_writes. reflexivity.
+  - rewrite existsb_app. simpl. apply orb_true_r.
+Qed.
+
+(* what the pending changes of a refused COMMIT mean for the NEXT request in the same process (not for a restart): its
+   COMMIT makes them durable together with its own - an operation answered with a failure is applied after all *)
+Lemma refused_commit_pending_applied_by_next : forall ws ws2 s,
+  recover (map Write ws ++ [CommitFail; Ack] ++ map Write ws2 ++ [Commit; Ack]) s = apply_writes (ws ++ ws2) s.
+Proof.
+  intros. unfold recover. rewrite run_app, run_writes. simpl app.
+  change (run (CommitFail :: Ack :: map Write ws2 ++ [Commit; Ack]) {| dur := s; pend := ws |})
+    with (run (map Write ws2 ++ [Commit; Ack]) {| dur := s; pend := ws |}).
+  rewrite run_app, run_writes. reflexivity.
+Qed.
